@@ -298,6 +298,58 @@ func c08Run(c *runner.Ctx) {
 					}
 				}
 			}
+			// two iterators of the SAME Dictionary object alive at once, advanced alternately: each enumerates its own range
+			if len(terms) >= 2 {
+				mid := []byte(terms[len(terms)/2])
+				var want1, want2 []string
+				for _, t := range terms {
+					e := fmt.Sprintf("%q:%d", t, len(sg.X.DocsOf(f, t)))
+					want1 = append(want1, e)
+					if bytes.Compare([]byte(t), mid) >= 0 {
+						want2 = append(want2, e)
+					}
+				}
+				var got1, got2 []string
+				var ierr error
+				panicked, pmsg, stack := runner.Try(func() {
+					it1 := d.Iterator(nil, nil, nil)
+					pull := func(it segment.DictionaryIterator, into *[]string) bool {
+						e, err := it.Next()
+						if err != nil {
+							ierr = err
+							return false
+						}
+						if e == nil {
+							return false
+						}
+						*into = append(*into, fmt.Sprintf("%q:%d", e.Term(), e.Count()))
+						return len(*into) <= len(terms)+5
+					}
+					more1 := pull(it1, &got1)
+					it2 := d.Iterator(nil, mid, nil)
+					more2 := true
+					for (more1 || more2) && ierr == nil {
+						if more2 {
+							more2 = pull(it2, &got2)
+						}
+						if more1 {
+							more1 = pull(it1, &got1)
+						}
+					}
+				})
+				c.Eval(1)
+				switch {
+				case panicked:
+					c.Violate("interleaved-iterators:panic:"+kn+":"+runner.TopIceFrame(stack), "two live iterators of one Dictionary: panic: "+pmsg, stack+"\n"+base())
+				case ierr != nil:
+					c.Violate("interleaved-iterators:error:"+kn, fmt.Sprintf("two live iterators of one Dictionary: %v", ierr), base())
+				case fmt.Sprint(got1) != fmt.Sprint(want1) || fmt.Sprint(got2) != fmt.Sprint(want2):
+					c.Violate("interleaved-iterators:enumeration:"+kn, fmt.Sprintf("two live iterators of one Dictionary advanced alternately: full scan returned %s (expected %s), scan from %q returned %s (expected %s)",
+						clipS(fmt.Sprint(got1), 150), clipS(fmt.Sprint(want1), 150), mid, clipS(fmt.Sprint(got2), 150), clipS(fmt.Sprint(want2), 150)), base())
+				default:
+					c.Inc("interleaved_iterator_pairs", 1)
+				}
+			}
 			if mixed {
 				c.Inc("fields_mixing_1hit_and_general", 1)
 			}
